@@ -11,6 +11,7 @@ The frozen table is the pinned tree's own (crate version 0.4.0): a change of any
 """
 from bpsa.facts import callee_decl, callee_name
 from bpsa.normal import canon
+from .ilen import NoLen as ilen_NoLen
 from bpsa.terms import walk, short, TERM_IDX
 from . import wire, C11, C15, roles as R, weights
 
@@ -25,6 +26,51 @@ def strip(t):
     while t.tag == 'mut':
         t = t[1]
     return t
+
+
+def path_layout(ctx, n, bb):
+    """[(scenario, runs, expected runs)] of the MAC key on every path from the entry of the nonce function to the MAC call, or None when
+    the function is not loop-free / a write is not understood (the caller then falls back to the sequence-of-appends form)"""
+    from bpsa import paths
+    from . import bytelayout
+    vs = paths.views(ctx.facts, ctx.eng, n, bb)
+    if not vs:
+        return None
+    out = []
+    for pv in vs:
+        taken = {}
+        for blk, val in pv.taken:
+            t = n.block[blk]['term']
+            c = canon(ctx.eng.operand(n, blk, TERM_IDX, t['discr']))
+            taken[c] = val
+        have = {}
+        for nm, p_ in (('j', 3), ('k', 4)):
+            v = taken.get('discr(p%d)' % p_)
+            if v is None:
+                return None             # the path does not test the optional index: not the idiom this rule reads
+            have[nm] = (v == '1')
+
+        def recv(site, pv=pv):
+            if not site or site[0] != n.key:
+                return None
+            a_ = pv.args(site[1])
+            return a_[0] if a_ else None
+        lay = bytelayout.Layout(recv, expand=lambda t_: ctx.eng.expand(t_))
+        try:
+            key = pv.args(bb)[0]
+            cells = lay.buf(key)
+        except (bytelayout.Unknown, ilen_NoLen) as e:
+            ctx.rep.note('nonce key layout not decided per path (%s); falling back to the append-sequence form' % e)
+            return None
+        got = [g.replace('encode_usize(', 'LE32(').replace('to_le_bytes(try_from(', 'LE32((') for g in bytelayout.runs(cells)]
+        got = [g.replace('LE32((', 'LE32(')[:-1] if g.startswith('LE32((') else g for g in got]
+        want = [repr(b'\x00'), 'as_bytes(p1)']
+        if have['j']:
+            want += [repr(b'j'), 'LE32(p3)']
+        if have['k']:
+            want += [repr(b'k'), 'LE32(p4)']
+        out.append(('j=%s,k=%s' % (have['j'], have['k']), got, want))
+    return out
 
 
 def nonce_derivation(ctx):
@@ -52,56 +98,64 @@ def nonce_derivation(ctx):
             rep.check(persona.tag == 'param' and persona[2] == 2, 'R-C19-2', 'R-C19-2/persona-is-label', 'the personalisation is the label', 'personalisation is %s' % short(persona, 60), ctx.where(n, bb))
             rep.check(is512, 'R-C19-2', 'R-C19-2/blake2b-512', 'the MAC is Blake2b with 64-byte output', 'MAC output size: %s' % outsz, ctx.where(n, bb))
             key = a[0]
-            evs = [e for e in (key[2] if key.tag == 'mut' else ()) if e.tag == 'ev']
-            seq = []
-            raw = []
-            for e in evs:
-                op = e[2].split('::')[-1]
-                v = e[3][0] if e[3] else None
-                site_bb = e[4][0][1]
-                raw.append((op, v, [(cnd, arms) for (sw, cnd, arms, tg) in ctx.path_conditions(n, site_bb) if cnd.tag == 'discr']))
-            # a loop over a literal array of k items is the k-fold repetition of its body, item by item
-            arr_elems = {}
-            for op, v, cds in raw:
-                for t0 in [v] + [c for c, _ in cds]:
-                    for x in (walk(t0) if t0 is not None else ()):
-                        if x.tag == 'elem' and strip(x[1]).tag == 'array' and strip(x[1]).args:
-                            arr_elems[x.id] = x
-            unrolled = []
-            if len(arr_elems) == 1:
-                el = list(arr_elems.values())[0]
-                inloop = [any(y is el for t0 in [v] + [c for c, _ in cds] if t0 is not None for y in walk(t0)) for op, v, cds in raw]
-                first = inloop.index(True)
-                last = len(inloop) - 1 - inloop[::-1].index(True)
-                unrolled = raw[:first]
-                for item in strip(el[1]).args:
-                    for op, v, cds in raw[first:last + 1]:
-                        unrolled.append((op, ctx.eng.subst_term(v, el, item) if v is not None else None, [(ctx.eng.subst_term(c, el, item), a) for c, a in cds]))
-                unrolled += raw[last + 1:]
-                raw = unrolled
-            for op, v, cds in raw:
-                c = canon(v) if v is not None else ''
-                if op == 'push' and c.isdigit():
-                    # one pushed byte is the one-byte string
-                    op, c = 'append', repr(bytes([int(c)]))
-                seq.append((op, c, tuple(canon(cnd) + str(arms) for cnd, arms in cds if cnd[1].tag == 'param')))
-            want = [
-                ('append', "b'\\x00'", ()),
-                ('extend_from_slice', 'as_bytes(p1)', ()),
-                ('append', "b'j'", ("discr(p3)('1',)",)),
-                ('append', 'encode_usize(p3)', ("discr(p3)('1',)",)),
-                ('append', "b'k'", ("discr(p4)('1',)",)),
-                ('append', 'encode_usize(p4)', ("discr(p4)('1',)",)),
-            ]
-            got = [(op, c, tuple(x for x in cd if x.startswith('discr(p3)') or x.startswith('discr(p4)'))) for op, c, cd in seq]
-            # `extend`/`append`/`extend_from_slice` are interchangeable ways to add bytes
-            norm = lambda op: 'add' if op in ('append', 'extend', 'extend_from_slice') else op
-            same = lambda g, w: g == w or (w.startswith('encode_usize(') and g == 'to_le_bytes(try_from(%s))' % w[len('encode_usize('):-1])
-            ok = len(got) == len(want) and all(norm(g[0]) == norm(w[0]) and same(g[1], w[1]) and g[2] == w[2] for g, w in zip(got, want))
-            rep.check(ok, 'R-C19-2', 'R-C19-2/key-layout', 'key = 0x00 || seed || [if j: "j" || LE32(j)] || [if k: "k" || LE32(k)]',
-                      'key is assembled as %s' % got, ctx.where(n, bb))
-            base = strip(key)
-            rep.check(base.tag == 'call' and base[1].endswith('with_capacity'), 'R-C19-2', 'R-C19-2/key-starts-empty', 'the key buffer starts empty', 'key buffer base is %s' % short(base, 60), ctx.where(n, bb))
+            decided = path_layout(ctx, n, bb)
+            if decided is not None:
+                bad = [(sc, got, want) for sc, got, want in decided if got != want]
+                rep.check(not bad, 'R-C19-2', 'R-C19-2/key-layout', 'key = 0x00 || seed || [if j: "j" || LE32(j)] || [if k: "k" || LE32(k)] on each of the %d paths to the MAC (byte layout decided per path)' % len(decided),
+                          'key layout: %s' % ['%s: %s (expected %s)' % b for b in bad], ctx.where(n, bb))
+                rep.check(len(decided) == 4, 'R-C19-2', 'R-C19-2/key-starts-empty', 'the four combinations of optional indices each have one path and nothing else is in the key',
+                          '%d paths reach the MAC, expected the four combinations of optional indices' % len(decided), ctx.where(n, bb))
+            if decided is None:
+                evs = [e for e in (key[2] if key.tag == 'mut' else ()) if e.tag == 'ev']
+                seq = []
+                raw = []
+                for e in evs:
+                    op = e[2].split('::')[-1]
+                    v = e[3][0] if e[3] else None
+                    site_bb = e[4][0][1]
+                    raw.append((op, v, [(cnd, arms) for (sw, cnd, arms, tg) in ctx.path_conditions(n, site_bb) if cnd.tag == 'discr']))
+                # a loop over a literal array of k items is the k-fold repetition of its body, item by item
+                arr_elems = {}
+                for op, v, cds in raw:
+                    for t0 in [v] + [c for c, _ in cds]:
+                        for x in (walk(t0) if t0 is not None else ()):
+                            if x.tag == 'elem' and strip(x[1]).tag == 'array' and strip(x[1]).args:
+                                arr_elems[x.id] = x
+                unrolled = []
+                if len(arr_elems) == 1:
+                    el = list(arr_elems.values())[0]
+                    inloop = [any(y is el for t0 in [v] + [c for c, _ in cds] if t0 is not None for y in walk(t0)) for op, v, cds in raw]
+                    first = inloop.index(True)
+                    last = len(inloop) - 1 - inloop[::-1].index(True)
+                    unrolled = raw[:first]
+                    for item in strip(el[1]).args:
+                        for op, v, cds in raw[first:last + 1]:
+                            unrolled.append((op, ctx.eng.subst_term(v, el, item) if v is not None else None, [(ctx.eng.subst_term(c, el, item), a) for c, a in cds]))
+                    unrolled += raw[last + 1:]
+                    raw = unrolled
+                for op, v, cds in raw:
+                    c = canon(v) if v is not None else ''
+                    if op == 'push' and c.isdigit():
+                        # one pushed byte is the one-byte string
+                        op, c = 'append', repr(bytes([int(c)]))
+                    seq.append((op, c, tuple(canon(cnd) + str(arms) for cnd, arms in cds if cnd[1].tag == 'param')))
+                want = [
+                    ('append', "b'\\x00'", ()),
+                    ('extend_from_slice', 'as_bytes(p1)', ()),
+                    ('append', "b'j'", ("discr(p3)('1',)",)),
+                    ('append', 'encode_usize(p3)', ("discr(p3)('1',)",)),
+                    ('append', "b'k'", ("discr(p4)('1',)",)),
+                    ('append', 'encode_usize(p4)', ("discr(p4)('1',)",)),
+                ]
+                got = [(op, c, tuple(x for x in cd if x.startswith('discr(p3)') or x.startswith('discr(p4)'))) for op, c, cd in seq]
+                # `extend`/`append`/`extend_from_slice` are interchangeable ways to add bytes
+                norm = lambda op: 'add' if op in ('append', 'extend', 'extend_from_slice') else op
+                same = lambda g, w: g == w or (w.startswith('encode_usize(') and g == 'to_le_bytes(try_from(%s))' % w[len('encode_usize('):-1])
+                ok = len(got) == len(want) and all(norm(g[0]) == norm(w[0]) and same(g[1], w[1]) and g[2] == w[2] for g, w in zip(got, want))
+                rep.check(ok, 'R-C19-2', 'R-C19-2/key-layout', 'key = 0x00 || seed || [if j: "j" || LE32(j)] || [if k: "k" || LE32(k)]',
+                          'key is assembled as %s' % got, ctx.where(n, bb))
+                base = strip(key)
+                rep.check(base.tag == 'call' and base[1].endswith('with_capacity'), 'R-C19-2', 'R-C19-2/key-starts-empty', 'the key buffer starts empty', 'key buffer base is %s' % short(base, 60), ctx.where(n, bb))
         enc = [b for b in ctx.facts.fns() if b.path.endswith('encode_usize')]
         if enc:
             e = enc[0]
